@@ -195,7 +195,7 @@ impl Campaign for E2ECampaign {
     execute_e(&c, &self.inner.en, None, &mut o).map(|(v, _)| v)
   }
   fn rule(&self) -> String {
-    format!("end to end: layout and delivered key history as in world A (no reset blocks; at most 60 events); every delivered event is written as a kernel input_event record into a pipe at a seeded time (gaps 0 / <5 ms / 20-100 ms / 150-550 ms), with 0-2 foreign records (SYN, MSC scan, value-2 auto-repeat, unknown codes, LED/REL, odd values) before and after it; the real loop runs on the hybrid simulated driver (shipped RealDriver, real reader and writer on pipes; latency, spurious readiness, interruptions swarm-style); every batch decoded from the uinput pipe is attributed to the key event the loop had just read (timer chords are left to C11) and the world-A oracle of this property is evaluated on those per-event outputs; distinct by hash of (layout, ops, arrival times, tape); non-trivial = {}", crate::worlda::nontrivial_rule(self.inner.property))
+    format!("end to end: layout and delivered key history as in world A (no reset blocks; Special repeats forced on; one run in eight a burst of 70-150 events in a few big batches, one in six with up to 9 keys held); every delivered event is written as a kernel input_event record into a pipe at a seeded time (gaps 0 / <5 ms / 20-100 ms / 150-550 ms), with 0-2 foreign records (SYN, MSC scan, value-2 auto-repeat, unknown codes, LED/REL, odd values) before and after it; the real loop runs on the hybrid simulated driver (shipped RealDriver, real reader and writer on pipes; latency, spurious readiness, interruptions swarm-style); the events a consumer sees in the bytes on the uinput pipe are dealt out, as one stream, to the key events the loop read (as many as a reference mapper emits for each); batches written after a time-out are timer chords: their content is left to C11, their effect on what is held is applied; the world-A oracle of this property is evaluated on those per-event outputs; distinct by hash of (layout, ops, arrival times, tape); non-trivial = {}", crate::worlda::nontrivial_rule(self.inner.property))
   }
   fn components(&self) -> Value {
     json!({"real": ["dev_input_rw::DevInputReader::next", "remapping_loop::RealDriver (hook H3: next_keyboard, send, register_poll, zero-timeout poll)", "remapping_loop::do_remapping_loop_one_device (hook H1)", "key_transforms::Mapper inside the loop", "dev_input_rw::DevInputWriter::send (hook H2)", "JSON parser + converter"],
